@@ -11,6 +11,7 @@
 -/
 import YtkProofs.Pipeline
 import YtkProofs.Decisions2
+import YtkProofs.GapPipeline
 
 namespace Ytk.C12
 
@@ -234,6 +235,66 @@ theorem nonvacuous_order_and_when :
 theorem nonvacuous_children_perm :
     ([Action.mk "c2" 2 none [] [], Action.mk "c1" 1 none [] []].map Action.order).Nodup ∧
     (sortActs [Action.mk "c2" 2 none [] [], Action.mk "c1" 1 none [] []]).map Action.name = ["c1", "c2"] := by
+  decide
+
+/-! ### round 8 (lean/CLAUSES_B.md, clauses C12.6 and C12.9) -/
+
+/-- C12.6 at full strength: in the listener's event sequence EVERY before/after pair — the action's own,
+    the `ops` / `steps` wrappers, every operation, every nested action at any depth — is closed by an
+    `after` whose error is the error of what ran inside the pair: `none` iff no `after` inside carries an
+    error, `some e` iff the inside is an error-free prefix followed only by `after _ (some e)` events
+    (`WNE`, YtkProofs/GapPipeline.lean).  `well_nested` (`WN`) accepted ANY error in a nested `after`. -/
+theorem well_nested_errors (n : Nat) (t : Task) (st : St) : WNE (run n t st).tr := run_wne n t st
+
+theorem well_nested_errors_exec (n : Nat) (a : Action) (st : St) : WNE (exec n a st).tr :=
+  run_wne n (.act a) st
+
+/-- it refines `well_nested` -/
+theorem well_nested_of_errors {tr : List Event} (h : WNE tr) : WN tr := h.wn
+
+/-- one pair read off `WNE`: the error carried by the closing `after` against the events inside -/
+theorem pair_error_consistent (l : String) (e : Option Err) (tr : List Event)
+    (hc : e = none → Clean tr) (hf : ∀ x, e = some x → FailTail x tr) (h : WNE tr) :
+    WNE (.before l :: tr ++ [.after l e]) := .wrap l e h hc hf
+
+/-- a nested pair whose `after` claims success although an inner `after` failed is NOT such a word, nor
+    is a pair that reports a different error than the one inside (both are `WN`) -/
+theorem nonvacuous_well_nested_errors :
+    WN [.before "a", .before "b", .after "b" (some .cond), .after "a" none] ∧
+    ¬ Clean [Event.before "b", .after "b" (some .cond)] ∧
+    ¬ FailTail (.abort "x") [Event.before "b", .after "b" (some .cond)] := by
+  refine ⟨WN.wrap "a" none (tr := [.before "b", .after "b" (some .cond)])
+      (WN.wrap "b" (some .cond) (tr := []) .nil), ?_, ?_⟩
+  · intro h
+    have := h (.after "b" (some .cond)) (by simp)
+    simp [Event.isOk] at this
+  · rintro ⟨pre, post, htr, hp, hq⟩
+    have hmem : Event.after "b" (some .cond) ∈ pre ++ post := by rw [← htr]; simp
+    rcases List.mem_append.mp hmem with h | h
+    · have := hp _ h
+      simp [Event.isOk] at this
+    · obtain ⟨l, hl⟩ := hq _ h
+      cases hl
+
+/-- C12.9, fuel adequacy.  Every trace theorem of this file holds "for every fuel" because running out
+    of fuel is an ordinary error — also for fuel 0, where nothing runs.  For the programs of the property
+    (action trees, any depth and fan-out, whose operations are set / template / log / ext / abort:
+    `Action.basic`) a fuel EXISTS from which on the run is never cut short, in any state … -/
+theorem run_no_fuel_error (a : Action) (h : a.basic = true) :
+    ∃ N, ∀ n, N ≤ n → ∀ st, (exec n a st).err ≠ some .fuel :=
+  act_basic_fuel a h
+
+/-- … and from there on the result does not depend on the fuel at all: trace, final data and error are
+    those of ONE run, which is the run the theorems above describe. -/
+theorem exec_fuel_sufficient (a : Action) (h : a.basic = true) :
+    ∃ N, ∀ n, N ≤ n → ∀ st, exec n a st = exec N a st ∧ (exec n a st).err ≠ some .fuel := by
+  obtain ⟨N, hN⟩ := act_basic_fuel a h
+  exact ⟨N, fun n hn st => ⟨run_mono hn (.act a) st (hN N (Nat.le_refl N) st), hN n hn st⟩⟩
+
+/-- the example programs of this file are in the fragment, and fuel 20 was enough for them -/
+theorem nonvacuous_fuel_sufficient :
+    exProg.basic = true ∧ exProgNoAbort.basic = true ∧
+    (exec 20 exProgNoAbort ⟨exData, []⟩).err ≠ some .fuel ∧ (exec 3 exProgNoAbort ⟨exData, []⟩).err = some .fuel := by
   decide
 
 end Ytk.C12
